@@ -579,6 +579,8 @@ func runShape(p pool, j job, thorough bool) Case {
 			cs = runIngShape(p, j.id, j.shape, thorough)
 		case "adv":
 			cs = runAdvJob(j.id, j.shape, thorough)
+		case "sec":
+			cs = runSecretShape(j.id, j.shape)
 		default:
 			cs = runCRDShape(p, j.fam, j.id, j.shape, thorough)
 		}
@@ -652,6 +654,11 @@ func main() {
 			}
 		}
 		return
+	}
+	if want("sec") {
+		for _, d := range allSecretShapes() {
+			jobs = append(jobs, job{"sec", len(jobs), d})
+		}
 	}
 	if want("adv") {
 		for _, d := range allAdvJobs() {
@@ -3550,4 +3557,212 @@ func advBase(name string) interface{} {
 		return g
 	}
 	return nil
+}
+
+// ---------------------------------------------------------------- S: Secret shapes against referencing resources
+
+// A Secret is a watched built-in kind whose data keys are all optional as far as the API server
+// is concerned (except tls.crt / tls.key of kubernetes.io/tls, which must be present, possibly
+// empty).  Family sec: for each secret name the fixtures' resources reference, every type
+// (the right one, Opaque, a wrong NGINX type) times every state of its keys (absent, empty,
+// valid, garbage), in both arrival orders -- the resources first and then the Secret through
+// the worker's syncSecret, or the Secret first and then the resources -- with the referencing
+// resources present: VirtualServers with an IngressMTLS / EgressMTLS / JWT / BasicAuth / OIDC /
+// APIKey policy at spec level, a VirtualServer and an Ingress and a TransportServer terminating
+// TLS, an Ingress with basic-auth and JWT annotations.  Observable: no panic in sync,
+// createExtendedResources, the Configurator.
+
+type secretSpec struct {
+	name  string
+	typ   api_v1.SecretType
+	keys  []string // the keys whose state varies
+	extra map[string][]byte
+}
+
+func secretSpecs() []secretSpec {
+	return []secretSpec{
+		{"tls-secret", api_v1.SecretTypeTLS, []string{"tls.crt", "tls.key"}, nil},
+		{"ca-secret", "nginx.org/ca", []string{"ca.crt", "ca.crl"}, nil},
+		{"jwk-secret", "nginx.org/jwk", []string{"jwk"}, nil},
+		{"htpasswd-secret", "nginx.org/htpasswd", []string{"htpasswd"}, nil},
+		{"oidc-secret", "nginx.org/oidc", []string{"client-secret"}, nil},
+		{"apikey-secret", "nginx.org/apikey", []string{"client1", "client2"}, nil},
+	}
+}
+
+// key states: 0 absent, 1 empty, 2 valid, 3 garbage
+func secretValue(key string, st byte) ([]byte, bool) {
+	crt, k := selfSigned()
+	switch st {
+	case '0':
+		return nil, false
+	case '1':
+		return []byte{}, true
+	case '3':
+		return []byte("-----BEGIN garbage\x00\n"), true
+	}
+	switch key {
+	case "tls.crt", "ca.crt":
+		return crt, true
+	case "tls.key":
+		return k, true
+	case "ca.crl":
+		return []byte("-----BEGIN X509 CRL-----\nMIIB\n-----END X509 CRL-----\n"), true
+	case "jwk":
+		return []byte(`{"keys":[]}`), true
+	case "htpasswd":
+		return []byte("u:$apr1$x$y"), true
+	case "client-secret":
+		return []byte("s3cret"), true
+	}
+	return []byte("key-" + key), true
+}
+
+// shape: <name>|<type: 0 right, 1 Opaque, 2 a wrong NGINX type, 3 empty>|<state per key>|<order 0|1>|<data nil: 0|1>
+func allSecretShapes() []string {
+	var out []string
+	for _, sp := range secretSpecs() {
+		var states []string
+		var rec func(i int, cur string)
+		rec = func(i int, cur string) {
+			if i == len(sp.keys) {
+				states = append(states, cur)
+				return
+			}
+			for _, st := range "0123" {
+				rec(i+1, cur+string(st))
+			}
+		}
+		rec(0, "")
+		for _, t := range "0123" {
+			for _, st := range states {
+				for _, o := range "01" {
+					out = append(out, fmt.Sprintf("%s|%c|%s|%c|0", sp.name, t, st, o))
+				}
+			}
+			out = append(out, fmt.Sprintf("%s|%c|%s|0|1", sp.name, t, strings.Repeat("0", len(sp.keys))), fmt.Sprintf("%s|%c|%s|1|1", sp.name, t, strings.Repeat("0", len(sp.keys))))
+		}
+	}
+	return out
+}
+
+func secretOfShape(d string) (*api_v1.Secret, int, error) {
+	parts := strings.Split(d, "|")
+	if len(parts) != 5 {
+		return nil, 0, fmt.Errorf("bad secret shape %q", d)
+	}
+	for _, sp := range secretSpecs() {
+		if sp.name != parts[0] || len(parts[2]) != len(sp.keys) {
+			continue
+		}
+		s := &api_v1.Secret{ObjectMeta: meta(sp.name, 130)}
+		switch parts[1] {
+		case "0":
+			s.Type = sp.typ
+		case "1":
+			s.Type = api_v1.SecretTypeOpaque
+		case "2":
+			s.Type = "nginx.org/jwk"
+			if sp.typ == "nginx.org/jwk" {
+				s.Type = "nginx.org/ca"
+			}
+		}
+		if parts[4] != "1" {
+			s.Data = map[string][]byte{}
+			for i, k := range sp.keys {
+				if v, ok := secretValue(k, parts[2][i]); ok {
+					s.Data[k] = v
+				}
+			}
+		}
+		order := 0
+		if parts[3] == "1" {
+			order = 1
+		}
+		return s, order, nil
+	}
+	return nil, 0, fmt.Errorf("bad secret shape %q", d)
+}
+
+func secretUsers() []interface{} {
+	pol := func(name string, f func(*conf_v1.PolicySpec)) *conf_v1.Policy {
+		p := &conf_v1.Policy{ObjectMeta: meta(name, 20), Spec: conf_v1.PolicySpec{IngressClass: "nginx"}}
+		f(&p.Spec)
+		return p
+	}
+	vs := func(name, host, policy string, created int) *conf_v1.VirtualServer {
+		v := olderVS(false, nil)
+		v.ObjectMeta = meta(name, created)
+		v.Spec.Host = host
+		v.Spec.TLS = &conf_v1.TLS{Secret: "tls-secret"}
+		v.Spec.Policies = []conf_v1.PolicyReference{{Name: policy}}
+		return v
+	}
+	ing := advIngress("sec-ing", map[string]string{"nginx.org/basic-auth-secret": "htpasswd-secret", "nginx.com/jwt-key": "jwk-secret"}, 40)
+	ing.Spec.Rules[0].Host = "ing.example.com"
+	ing.Spec.TLS[0].Hosts = []string{"ing.example.com"}
+	ts := olderTS()
+	ts.Spec.TLS = &conf_v1.TransportServerTLS{Secret: "tls-secret"}
+	return []interface{}{
+		gcObject(gcListeners()),
+		pol("p-mtls", func(s *conf_v1.PolicySpec) {
+			s.IngressMTLS = &conf_v1.IngressMTLS{ClientCertSecret: "ca-secret", VerifyClient: "on"}
+		}),
+		pol("p-egress", func(s *conf_v1.PolicySpec) {
+			s.EgressMTLS = &conf_v1.EgressMTLS{TLSSecret: "tls-secret", TrustedCertSecret: "ca-secret", VerifyServer: true}
+		}),
+		pol("p-jwt", func(s *conf_v1.PolicySpec) { s.JWTAuth = &conf_v1.JWTAuth{Realm: "r", Secret: "jwk-secret"} }),
+		pol("p-basic", func(s *conf_v1.PolicySpec) { s.BasicAuth = &conf_v1.BasicAuth{Realm: "r", Secret: "htpasswd-secret"} }),
+		pol("p-oidc", func(s *conf_v1.PolicySpec) {
+			s.OIDC = &conf_v1.OIDC{AuthEndpoint: "https://idp.example.com/auth", TokenEndpoint: "https://idp.example.com/token",
+				JWKSURI: "https://idp.example.com/jwks", ClientID: "client", ClientSecret: "oidc-secret"}
+		}),
+		pol("p-apikey", func(s *conf_v1.PolicySpec) {
+			s.APIKey = &conf_v1.APIKey{SuppliedIn: &conf_v1.SuppliedIn{Header: []string{"X-API-Key"}}, ClientSecret: "apikey-secret"}
+		}),
+		vs("vs-mtls", "mtls.example.com", "p-mtls", 30), vs("vs-egress", "egress.example.com", "p-egress", 31),
+		vs("vs-jwt", "jwt.example.com", "p-jwt", 32), vs("vs-basic", "basic.example.com", "p-basic", 33),
+		vs("vs-oidc", "oidc.example.com", "p-oidc", 34), vs("vs-apikey", "apikey.example.com", "p-apikey", 35),
+		ing, ts,
+	}
+}
+
+func runSecretShape(id int, d string) Case {
+	cs := Case{Fam: "sec", ID: id, Shape: d, Kind: "Secret"}
+	sec, order, err := secretOfShape(d)
+	if err != nil {
+		cs.Error = err.Error()
+		return cs
+	}
+	adm := admitted(sec)
+	cs.Admitted = &adm
+	for _, f := range []int{0, fPlus, fPlus | fAppProtect | fDos | fInternal | fSnippets | fCertMgr | fTLSPass, fSnippets | fTLSPass} {
+		cs.Tried++
+		m, s := guard(func() {
+			c := newCtl(f)
+			fillSecrets(c)
+			add := func() {
+				for _, o := range secretUsers() {
+					_ = c.Sync(o, false)
+				}
+			}
+			if order == 0 { // the resources (and valid fixture secrets) first, then the Secret through syncSecret
+				add()
+				_ = c.Sync(sec.DeepCopy(), false)
+			} else { // the Secret first, then the resources
+				_ = c.Sync(sec.DeepCopy(), false)
+				add()
+			}
+			c.ExtendAll()
+			_ = c.Sync(sec.DeepCopy(), true) // and its deletion
+			c.ExtendAll()
+		})
+		if m != "" {
+			cs.Panics = append(cs.Panics, PanicInfo{Combo: fmt.Sprintf("flags=%d", f), Stage: "sync", Msg: m, Site: s})
+			if cs.Object == nil {
+				cs.Object, _ = json.Marshal(map[string]interface{}{"secret": sec, "order": order})
+			}
+		}
+	}
+	return cs
 }
